@@ -2,7 +2,7 @@
 import os, sys, json, random
 from . import core, runner
 
-TIERS = {'quick': {'runs': 20000}, 'thorough': {'runs': 800000}}
+TIERS = {'quick': {'runs': 35000}, 'thorough': {'runs': 800000}}
 CHILD_TIMEOUT = 60.0
 
 def _pristine_decode(bhex, mode):
